@@ -123,7 +123,8 @@ func ruleSystemLimitGuards(w *World, r *RuleResult) {
 			key := fmt.Sprintf("%s | system-limit return #%d", name, n)
 			okGuard := false
 			var seen, notStrict []string
-			for _, g := range guardsAt(b) {
+			for _, dg := range w.guardsAtDeep(f, b) {
+				g := dg.Guard
 				bo, isB := g.Cond.(*ssa.BinOp)
 				if !isB {
 					continue
@@ -140,11 +141,11 @@ func ruleSystemLimitGuards(w *World, r *RuleResult) {
 						loose := (ci(k) == maxE && ((op == token.GEQ && g.Val) || (op == token.LSS && !g.Val))) ||
 							(ci(k) == -maxE && ((op == token.LEQ && g.Val) || (op == token.GTR && !g.Val)))
 						if loose {
-							notStrict = append(notStrict, w.exprOf(f, g.Cond).String())
+							notStrict = append(notStrict, w.exprOf(dg.Fn, g.Cond).String())
 						}
 					}
 				}
-				seen = append(seen, w.exprOf(f, g.Cond).String())
+				seen = append(seen, w.exprOf(dg.Fn, g.Cond).String())
 			}
 			if okGuard && len(notStrict) > 0 {
 				r.bad(key, w.instrPos(rt), "the system-limit condition is returned under "+short(strings.Join(notStrict, " ∧ "), 160)+", which rejects the limit itself: an adjusted exponent of exactly ±MaxExponent is inside the package range (Mul(2E+50000, 3E+50000) must be 6E+100000)")
@@ -174,6 +175,9 @@ func ruleQuantizeKeepsSign(w *World, r *RuleResult) {
 	var bad []string
 	for _, rs := range fr.Returns {
 		for tag, at := range rs.May["Negative"] {
+			if tag == "shared:decimalNaN" {
+				continue // the whole value is replaced by the shared NaN (a failure path): not a sign computation
+			}
 			if tag != fmt.Sprintf("copy:%d", vi) {
 				bad = append(bad, fmt.Sprintf("d.Negative written (%s) at %s", tag, w.instrPos(at)))
 			}
